@@ -948,7 +948,7 @@ def run_backend(drv, case) -> Outcome:
                         near = min(stored_ts, key=lambda t: abs(t - w))
                         out.fail("retrievable-at-requested-time",
                                  f"{o.tag}: get_result(obs, {w!r}) raises; the value is filed under {near!r}",
-                                 reason="float-roundtrip")
+                                 reason="float-roundtrip-final-time" if w == 1.0 else "float-roundtrip")
             # (d) the stored value is the definition evaluated on the stored state of that time
             if o_spec["type"] == "bitstrings":
                 continue
@@ -981,7 +981,7 @@ def run_backend(drv, case) -> Outcome:
 def gen_backend(rng) -> dict:
     label = rng.choice(["gr1", "gr2", "gr2", "three-level", "three-level-noise", "two-default-times", "full",
                         "dephasing", "state-prep", "state-prep"])
-    dur = rng.choice([100, 100, 200, 300, 120, 64])
+    dur = rng.choice([100, 100, 200, 300, 120, 64, 71, 141])
     amp = rng.choice([3.0, 6.283185307179586, 9.0])
     det = rng.choice([0.0, 0.0, -4.0, 5.0])
     segs = [dict(ch="ryd", dur=dur, amp=amp, det=det, phase=rng.choice([0.0, 1.0]))]
